@@ -38,6 +38,8 @@ m = {
          "kind_free_text": "exhaustive enumeration of byte strings and pushdown DFS over a head alphabet, real library in lock-step with a reference decoder"},
         {"name": "E1-tree-space", "path": "harness/chk_serial.c, harness/vf_trees.c", "serves_properties": [p for p in ALL if CHECKS.get(p, {}).get("engine") == "E1-tree-space"],
          "kind_free_text": "bounded exhaustive enumeration of item trees (decoder-derived + constructed grammar) with reference encoder, byte-image snapshots, guard-page buffers"},
+        {"name": "E2-api-history", "path": "harness/chk_history.c, harness/chk_container.c", "serves_properties": [p for p in ALL if CHECKS.get(p, {}).get("engine") == "E2-api-history"],
+         "kind_free_text": "explicit-state BFS over API call histories with canonical-state deduplication; real calls as transition function; shadow model as oracle"},
         {"name": "E3-fault-schedule", "path": "harness/chk_fault.c", "serves_properties": [p for p in ALL if CHECKS.get(p, {}).get("engine") == "E3-fault-schedule"],
          "kind_free_text": "deviation-bounded enumeration of allocator answers (single refusal, fail-stop, pairs) per scenario"},
         {"name": "E4-fragment-state", "path": "harness/chk_frag.c", "serves_properties": [p for p in ALL if CHECKS.get(p, {}).get("engine") == "E4-fragment-state"],
